@@ -1,9 +1,11 @@
 import CedarVerif.Driver.CodecSchema
+import CedarVerif.Driver.Ops.Tyck
 import CedarVerif.Cedar.Validation.Level
 import CedarVerif.Cedar.Slice
 /-
 Driver ops of C16 (level validation and the level-n slice):
-  (level <schema> levels <cond>)
+  (level <schema> levels <cond>)                      static policy
+  (level <schema> levels (tpl <pu> <ru>) <cond>)      template; `<pu>`/`<ru>` as in the `tyck` op (none | eq | in | other)
       → (level v0 v1 v2 v3 v4) | (outside-model)
         the verdict of strict validation with maximum dereference level n = 0..4 on the static policy with condition
         `<cond>`, over all request environments of the schema: `ok`, or `(fail [max:K] [lit] [internal])` with K the
@@ -52,6 +54,13 @@ def handleLevel (x : Sexp) : Option String :=
       if vs.any Option.isNone then some "(outside-model)"
       else some ("(level" ++ String.join (vs.map (fun v => " " ++ encVerdict (v.getD []))) ++ ")")
     | _, _ => some "(bad-op)"
+  | .list [.atom "level", s, .atom "levels", .list [.atom "tpl", pu, ru], e] =>
+    match decSchema s, Ops.decSlotUse pu, Ops.decSlotUse ru, decExpr e with
+    | some s, some pu, some ru, some e =>
+      let vs := [0, 1, 2, 3, 4].map (fun n => levelPolicy n .strict s pu ru e)
+      if vs.any Option.isNone then some "(outside-model)"
+      else some ("(level" ++ String.join (vs.map (fun v => " " ++ encVerdict (v.getD []))) ++ ")")
+    | _, _, _, _ => some "(bad-op)"
   | .list [.atom "level", s, n, .list [.atom "env", .str p, a, .str r], e] =>
     match decSchema s, n.asNat?, decUid a, decExpr e with
     | some s, some n, some a, some e =>
